@@ -106,8 +106,8 @@ class Flow:
         self.content = bytearray()
         self.pending = []          # handler ids of writes issued, completion not yet seen
         self.delivered = 0         # bytes of it handed to the reader so far
-        self.unverified = []       # reads waiting for a pending write's completion
-        self.holes = {}            # read handler id -> (offset, k): bytes a posted completion must still report
+        self.waiting = []          # reads whose judgement waits (for a pending write's completion, or wait_read)
+        self.wait_read = None      # id of a posted read completion a non-blocking read has overtaken
         self.reports = 0
 
 
@@ -287,51 +287,54 @@ class Monitor:
                 return
         self.fail("prefix", "%s: %s returned n=%d %s: %s" % (where, side.name(), n, dg, why))
 
-    def verify(self, side, flow, n, dg, where):
+    def verify(self, side, flow, n, dg, where, sync=False):
+        """judge one read against the flow; False = the judgement has to wait"""
         d = flow.delivered
         if d + n <= len(flow.content):
             if not self.matches(flow.content, d, n, dg):
-                if self.overtaken(side, flow, n, dg): return
+                if sync and flow.wait_read is None:
+                    # a non-blocking read can run between the moment an asynchronous read copied its
+                    # bytes (completion posted) and the moment its handler is invoked: judge it after
+                    # that completion, which comes first in the stream
+                    hid = self.posted_read(side)
+                    if hid is not None:
+                        flow.wait_read = hid
+                        self.stats["overtaken"] = self.stats.get("overtaken", 0) + 1
+                        return False
                 flow.reports += 1
                 if flow.reports <= 2:
                     self.classify(side, flow, n, dg, "expected the bytes [%d,%d) of what %s's completed writes transferred, %s" % (d, d + n, flow.side.name(), digest(flow.content[d:d + n])), where)
             flow.delivered = d + n
-            return
+            return True
         # more than the completed writes reported
         if flow.pending:
-            flow.unverified.append((side, n, dg, where))
             self.stats["deferred"] += 1
-            return
+            return False
         flow.reports += 1
         if flow.reports <= 2:
             self.classify(side, flow, n, dg, "the reader would have been handed %d bytes while completed writes of %s reported only %d as transferred" % (d + n, flow.side.name(), len(flow.content)), where)
         flow.delivered = d + n
+        return True
 
-    def overtaken(self, side, flow, n, dg):
-        """a non-blocking read can run between the moment an asynchronous read copied its bytes
-        (completion posted) and the moment its handler is invoked: the bytes it returns then lie
-        k <= capacity bytes ahead, and the pending completion must later report exactly those k"""
-        d = flow.delivered
+    def posted_read(self, side):
         for hid, rec in self.handlers.items():
-            if rec.get("kind") != "read" or rec.get("done") or rec.get("side") is not side or hid in flow.holes: continue
-            for k in range(1, rec.get("cap", 0) + 1):
-                if d + k + n > len(flow.content): break
-                if self.matches(flow.content, d + k, n, dg):
-                    flow.holes[hid] = (d, k)
-                    flow.delivered = d + k + n
-                    self.stats["overtaken"] = self.stats.get("overtaken", 0) + 1
-                    return True
-        return False
+            if rec.get("kind") == "read" and not rec.get("done") and rec.get("side") is side: return hid
+        return None
+
+    def submit(self, side, flow, n, dg, where, sync=False):
+        item = (side, n, dg, where, sync)
+        if flow.waiting or flow.wait_read is not None:
+            flow.waiting.append(item)
+        elif not self.verify(side, flow, n, dg, where, sync):
+            flow.waiting.append(item)
 
     def drain(self, flow):
-        pend = flow.unverified; flow.unverified = []
-        for (side, n, dg, where) in pend:
-            if flow.unverified:
-                flow.unverified.append((side, n, dg, where))
-            else:
-                self.verify(side, flow, n, dg, where)
+        while flow.waiting and flow.wait_read is None:
+            (side, n, dg, where, sync) = flow.waiting[0]
+            if not self.verify(side, flow, n, dg, where, sync): return
+            flow.waiting.pop(0)
 
-    def deliver(self, side, n, dg, where, cap):
+    def deliver(self, side, n, dg, where, cap, sync=False):
         self.stats["reads"] += 1; self.stats["read_bytes"] += n
         if cap is not None and cap <= 7: self.stats["small_reads"] += 1
         if cap is not None and n > cap:
@@ -351,11 +354,7 @@ class Monitor:
                     break
             if len(self.fails) == before: self.stats["unattributed"] += 1
             return
-        flow = side.peer.out
-        if flow.unverified:
-            flow.unverified.append((side, n, dg, where))
-        else:
-            self.verify(side, flow, n, dg, where)
+        self.submit(side, side.peer.out, n, dg, where, sync)
 
     def eof(self, side, where):
         self.stats["eofs"] += 1
@@ -367,7 +366,7 @@ class Monitor:
         if p is None: return
         if not p.ended:
             self.fail("eof", "%s: end-of-file reported to %s although its peer %s has not closed the connection" % (where, side.name(), p.name()))
-        side.eof_at = p.out.delivered + sum(x[1] for x in p.out.unverified)
+        side.eof_at = p.out.delivered + sum(x[1] for x in p.out.waiting)
 
     # ---------------------------------------------------------------- trace
     def on_C(self, tk, ln):
@@ -442,7 +441,7 @@ class Monitor:
             where = "`%s`" % ln
             self.stats["nb_reads"] += 1
             if r0 == "ok" and n > 0:
-                self.deliver(live, n, self.dg_of(res), where, cap)
+                self.deliver(live, n, self.dg_of(res), where, cap, sync=True)
             elif r0 == "eof":
                 self.eof(live, where)
 
@@ -493,7 +492,7 @@ class Monitor:
                 flow.content += stream_bytes(stream, off + n)[off:off + n]
             elif ec != "ok" and n > 0:
                 self.fail("prefix", "%s: failed write reports n=%d" % (where, n))
-            if flow.unverified: self.drain(flow)
+            self.drain(flow)
         elif kind in ("read", "wait"):
             rec["done"] = True
             side = rec.get("side")
@@ -503,15 +502,16 @@ class Monitor:
                 side = self.cur.get(rec.get("sock"))
             if kind == "read":
                 n = _int(d.get("n"))
-                hole = None
-                if side is not None and side.peer is not None:
-                    hole = side.peer.out.holes.pop(tk[1], None)
-                if hole is not None:
-                    f = side.peer.out
-                    if not (ec == "ok" and n == hole[1] and self.matches(f.content, hole[0], n, self.dg_of(tk))):
-                        self.fail("prefix", "%s: %s: a non-blocking read had already been handed the bytes from offset %d on, so this completion had to report the %d bytes [%d,%d) of what %s wrote; it reports ec=%s n=%d %s"
-                                  % (where, side.name(), hole[0] + hole[1], hole[1], hole[0], hole[0] + hole[1], f.side.name(), ec, n, self.dg_of(tk)))
-                    self.stats["reads"] += 1; self.stats["read_bytes"] += n
+                f = side.peer.out if (side is not None and side.peer is not None) else None
+                if f is not None and f.wait_read == tk[1]:
+                    # the completion a non-blocking read has overtaken: its bytes come first
+                    f.wait_read = None
+                    if ec == "ok" and n > 0:
+                        self.stats["reads"] += 1; self.stats["read_bytes"] += n
+                        if not self.verify(side, f, n, self.dg_of(tk), where):
+                            f.waiting.insert(0, (side, n, self.dg_of(tk), where, False))
+                    self.drain(f)
+                    if ec == "eof": self.eof(side, where)
                     return
                 if ec == "ok" and n > 0: self.deliver(side, n, self.dg_of(tk), where, rec.get("cap"))
                 elif ec == "eof": self.eof(side, where)
@@ -541,12 +541,10 @@ class Monitor:
         # end of trace
         for s in self.sides:
             f = s.out
-            if f.unverified and not crashed:
-                (side, n, dg, where) = f.unverified[0]
-                self.classify(side, f, n, dg, "the reader was handed %d bytes more than the %d bytes the completed writes of %s reported" % (sum(x[1] for x in f.unverified) + f.delivered - len(f.content), len(f.content), s.name()), where)
-            if f.holes and not crashed and self.ended_run:
-                hid, (o, k) = sorted(f.holes.items())[0]
-                self.fail("prefix", "bytes [%d,%d) of what %s wrote were skipped: a non-blocking read returned the bytes behind them, and the pending read %s that should have reported them never completed" % (o, o + k, s.name(), hid))
+            if f.waiting and not crashed:
+                # whatever the judgement waited for never came: judge now
+                f.wait_read = None; f.pending = []
+                self.drain(f)
             if s.eof_seen and s.peer is not None:
                 acc = len(s.peer.out.content); at = getattr(s, "eof_at", None)
                 if at is not None and at < acc:
